@@ -74,3 +74,9 @@ package fetcher
 //@   assert before call#1 Init: arg6 == col
 //@   assert before call#1 Init: arg3 == box(res(NewTxnFrom, 1, 0))
 //@   tags C10 C03
+//@
+//@ // ===== C07: an index restricts the documents that are fetched, so only conditions that every result must
+//@ // satisfy may be turned into index conditions: branches under _not and under _or are never used
+//@ func (*indexFetcher).determineFieldFilterConditions -> (r, err)
+//@   assert before call#1 TraverseProperties: len(arg2) == 2 && arg2[0] == "_not" && arg2[1] == "_or" && arg0 == f.indexFilter.Conditions
+//@   tags C07
